@@ -249,6 +249,14 @@ def run_frame(case, ctx):
                 colv.append(v)
             eg.append(colv)
         op('fillna_frame', lambda: f.fillna(filler), eg)
+        # the same cells under descending labels on both axes; the filler covers every label, in another order, plus foreign ones
+        index2, columns2 = index[::-1], columns[::-1]
+        f2 = f.relabel(index=index2, columns=columns2)
+        fv = lambda r, c: 300 + 10 * int(r[1:]) + int(c[1:])
+        fr_, fc_ = sorted(index, key=lambda l: (int(l[1:]) * 7) % 5) + ['zz'], ['yy'] + sorted(columns, key=lambda l: (int(l[1:]) * 3) % 4)
+        filler2 = sf.Frame.from_records([[fv(r, c) if r != 'zz' and c != 'yy' else 999 for c in fc_] for r in fr_], index=fr_, columns=fc_)
+        op('fillna_frame_descending_labels', lambda: f2.fillna(filler2),
+           [[fv(index2[i], columns2[j]) if miss[j][i] else grid[j][i] for i in range(nrows)] for j in range(ncols)], index2, columns2)
         for axis in (0, 1):
             n_along = nrows if axis == 0 else ncols
             for limit in range(0, n_along + 1):
@@ -326,6 +334,12 @@ def run_series(case, ctx):
             if n == 1:
                 filler = sf.Series([100, 101], index=['zz', index[0]])
             op('fillna_series', lambda: s.fillna(filler), ev)
+            # target labels in descending / rotated order, filler covering every label (in yet another order) plus a foreign one
+            for oname, order in (('reversed', index[::-1]), ('rotated', index[1:] + index[:1])):
+                s2 = sf.Series(arrays[0], index=order, name='s')
+                fv = {lab: 200 + int(lab[1:]) for lab in index}
+                filler2 = sf.Series([fv[l] for l in sorted(index, key=lambda l: (int(l[1:]) * 7) % 5)] + [999], index=sorted(index, key=lambda l: (int(l[1:]) * 7) % 5) + ['zz'])
+                op(f'fillna_series_{oname}', lambda: s2.fillna(filler2), [fv[l] if m else v for l, v, m in zip(order, vals, miss)], order)
         for limit in range(0, n + 1):
             op(f'ffill_l{limit}', lambda limit=limit: s.fillna_forward(limit), r_ffill(vals, limit))
             op(f'bfill_l{limit}', lambda limit=limit: s.fillna_backward(limit), r_bfill(vals, limit))
